@@ -70,7 +70,11 @@ func runFaultSweep(r *ev.Run, dir string, cfg cfgT, seed uint64) (runs, fired in
 	g := rng.New(seed)
 	base := filepath.Join(dir, fmt.Sprintf("fault-%s-%x", cfg.Name, seed))
 	defer os.RemoveAll(base)
-	idx, err := bleve.NewUsing(filepath.Join(base, "idx"), corpus.Mapping(), scorch.Name, scorch.Name, cfg.KV)
+	kv := map[string]any{} // NewUsing writes the store path into the map it is given: never share it between indexes
+	for k, v := range cfg.KV {
+		kv[k] = v
+	}
+	idx, err := bleve.NewUsing(filepath.Join(base, "idx"), corpus.Mapping(), scorch.Name, scorch.Name, kv)
 	if err != nil {
 		r.Violation("fault/setup-error", err.Error(), nil)
 		return
